@@ -55,6 +55,13 @@ var c09Placements = []string{
 	"m{%A} offset 20s - m{%B}",
 	"m{%A} @ 3580 offset -5s + ignoring (b) group_left () m{%B} @ 3610",
 	"sum(m{%A} offset 20s) by (a) + on (a) sum(m{%B} @ 3580) by (a)",
+	// matching on the empty label list
+	"m{%A} - on () n{%B}",
+	"m{%A} * ignoring () n{%B}",
+	// several matchers on the metric name
+	"{__name__=\"m\",__name__!=\"m\",%A} + m{%B}",
+	"{__name__=\"m\",__name__=~\"m|n\",%A} - m{%B}",
+	"{__name__=~\"m\",%A} + {__name__=~\"m\",__name__!~\"m|k\",%B}",
 }
 
 // c09Data: every label-presence combination (absent/1/2/3) of a and b for metrics m and n.
